@@ -1,3 +1,142 @@
-/-! # C09 — property theorems (stub: nothing stated yet) -/
+import SR.Proofs.ActorCrash
+/-!
+# C09 — crash faults: every allowed crash point is explored; crashed actors stay silent
+
+Property theorems only. Model: `SR/Actor/Sys.lean` (option 4 of `actions`, the `Crash` / `Deliver` / `Timeout` /
+`SelectRandom` arms of `next_state`). The theorems quantify over all actor systems (any handlers), all crash
+budgets `sys.maxCrashes` and all (reachable / well-formed) states, i.e. every point of every execution.
+State identity here is structural equality of `St` (actor states, network, timers, pending choices, crash
+flags, history); that `ActorModelState`'s `Hash`/`Eq` agree with it is C04's subject and is compared by the C09
+harness on every discovered state. `C09_explored` (every reachable crash combination is an evaluated state of
+the checker) composes `ActorSys.toSys` with the checker machine and lives with C01 (lead).
+-/
 namespace SR.C09
+open SR SR.Actor
+
+variable {σ η : Type}
+
+/-- **Offered**: a crash of `i` is enabled iff `i` is up and fewer than `maxCrashes` actors are down. -/
+theorem C09_offered (sys : ActorSys σ η) (st : St σ η) (i : Nat) :
+    Action.crash i ∈ actions sys st ↔ st.crashed[i]? = some false ∧ countCrashed st.crashed < sys.maxCrashes := by
+  simp only [actions, List.mem_append, mem_timeoutActions, mem_crashActions, mem_randomActions]
+  have hnet : Action.crash i ∉ netActions sys none st.net.iterDeliverable := by
+    intro h
+    rcases netActions_kinds sys _ _ _ h with ⟨e, he⟩ | ⟨e, he⟩ <;> cases he
+  constructor
+  · rintro (((h | ⟨_, _, _, h, _⟩) | ⟨j, h, hk, hj⟩) | ⟨_, _, _, _, _, h, _⟩)
+    · exact absurd h hnet
+    · cases h
+    · cases h; exact ⟨hj, hk⟩
+    · cases h
+  · rintro ⟨hj, hk⟩
+    exact Or.inl (Or.inr ⟨i, rfl, hk, hj⟩)
+
+/-- **Effect**: a crash sets the flag and discards the actor's timers and pending choices; nothing else changes. -/
+theorem C09_effect (sys : ActorSys σ η) (st : St σ η) (i : Nat) (hwf : st.WF sys) (hi : i < sys.n) :
+    step sys st (.crash i) = .next (crashOf i st) := by
+  rw [step_eq_specStep sys st _ hwf, specStep_crash sys st i hi]
+
+/-- **Distinct**: an enabled crash leads to a different state with one more crashed actor (also when the actor
+held no timer and no pending choice), so each combination of crashed actors is a state of its own. -/
+theorem C09_distinct (sys : ActorSys σ η) (st st' : St σ η) (i : Nat) (hwf : st.WF sys)
+    (ha : Action.crash i ∈ actions sys st) (h : step sys st (.crash i) = .next st') :
+    st' ≠ st ∧ st'.crashed ≠ st.crashed ∧ st'.crashed[i]? = some true ∧
+      countCrashed st'.crashed = countCrashed st.crashed + 1 := by
+  obtain ⟨hup, _⟩ := (C09_offered sys st i).1 ha
+  have hlt : i < sys.n := by have := lt_length_of_getElem? hup; obtain ⟨_, _, _, hC⟩ := hwf; omega
+  rw [C09_effect sys st i hwf hlt] at h
+  cases h
+  have h3 : (crashOf i st).crashed[i]? = some true := by
+    simp [crashOf, List.getElem?_set_self (lt_length_of_getElem? hup)]
+  have h2 : (crashOf i st).crashed ≠ st.crashed := by
+    intro e; rw [e, hup] at h3; cases h3
+  exact ⟨fun e => h2 (by rw [e]), h2, h3, countCrashed_set_true _ _ hup⟩
+
+/-- **Invariant** of reachable states: a crashed actor holds no timer and no pending choice, and at most
+`maxCrashes` actors are down. -/
+theorem C09_inv (sys : ActorSys σ η) (inB : St σ η → Bool) (hc : sys.initNet.Canon) (st : St σ η)
+    (h : (sys.toSys inB).Reach st) :
+    (∀ i : Nat, st.crashed[i]? = some true → st.timers[i]? = some [] ∧ st.random[i]? = some []) ∧
+    countCrashed st.crashed ≤ sys.maxCrashes := reach_crashInv sys inB hc h
+
+/-- **Silent**: at a reachable state a crashed actor `i` never has a handler invoked again — a delivery to it
+is not a step, and no timeout and no random selection of `i` is enabled. -/
+theorem C09_silent (sys : ActorSys σ η) (inB : St σ η → Bool) (hc : sys.initNet.Canon) (st : St σ η)
+    (h : (sys.toSys inB).Reach st) (i : Nat) (hi : st.crashed[i]? = some true) :
+    (∀ e, e.dst = i → step sys st (.deliver e) = .ignored) ∧
+    (∀ t, Action.timeout i t ∉ actions sys st) ∧
+    (∀ k r, Action.selectRandom i k r ∉ actions sys st) := by
+  obtain ⟨hwf, hn⟩ := reach_inv sys inB hc h
+  obtain ⟨hinv, _⟩ := reach_crashInv sys inB hc h
+  obtain ⟨hts, hrs⟩ := hinv i hi
+  refine ⟨?_, ?_, ?_⟩
+  · rintro e rfl
+    rw [step_eq_specStep sys st _ hwf]
+    have hlt := lt_length_of_getElem? hi
+    obtain ⟨s, hs⟩ := getElem?_of_lt (l := st.actors) (i := e.dst) (by obtain ⟨hA, _, _, hC⟩ := hwf; omega)
+    simp [specStep, eventOf, specHandlerStep, hs, hi, isDeliver]
+  · intro t hmem
+    obtain ⟨ts, h1, h2⟩ := (mem_actions_iff sys st hn _).1 hmem
+    rw [hts] at h1; cases h1; simp at h2
+  · intro k r hmem
+    obtain ⟨m, cs, h1, h2, _⟩ := (mem_actions_iff sys st hn _).1 hmem
+    rw [hrs] at h1; cases h1; simp at h2
+
+/-- **Undelivered**: a delivery addressed to a crashed actor is not a step at all — the message stays in the
+network, nothing changes (no `WF`/reachability needed beyond the vectors having an entry for the actor). -/
+theorem C09_undelivered (sys : ActorSys σ η) (st : St σ η) (e : Env) (s : σ)
+    (hs : st.actors[e.dst]? = some s) (hc : st.crashed[e.dst]? = some true) :
+    step sys st (.deliver e) = .ignored := by
+  simp [step, hs, hc]
+
+/-- **All other actors behave as before**: after a crash of `i`, every action of another actor (and every
+drop) is enabled exactly when it was, and its effect is the same — the step commutes with the crash. -/
+theorem C09_others (sys : ActorSys σ η) (st : St σ η) (i : Nat) (a : Action) (hwf : st.WF sys) (hn : st.NetOk sys)
+    (hother : actorOfAction a ≠ some i) (hnc : ∀ k, a ≠ .crash k) :
+    (a ∈ actions sys (crashOf i st) ↔ a ∈ actions sys st) ∧
+    step sys (crashOf i st) a = (step sys st a).map (crashOf i) := by
+  constructor
+  · have hn' : (crashOf i st).NetOk sys := hn
+    rw [mem_actions_iff sys _ hn', mem_actions_iff sys st hn]
+    cases a with
+    | deliver e => exact Iff.rfl
+    | drop e => exact Iff.rfl
+    | crash k => exact absurd rfl (hnc k)
+    | timeout j t =>
+      have hij : i ≠ j := fun e => hother (by simp [actorOfAction, e])
+      simp [enabledSpec, crashOf, List.getElem?_set_ne hij]
+    | selectRandom j k r =>
+      have hij : i ≠ j := fun e => hother (by simp [actorOfAction, e])
+      simp [enabledSpec, crashOf, List.getElem?_set_ne hij]
+  · rw [step_eq_specStep sys _ a (wf_crashOf i hwf), step_eq_specStep sys st a hwf]
+    exact specStep_crashOf sys st a i hother hnc
+
+/-! ## the hypotheses are satisfiable -/
+
+/-- two idle actors, budget 1: the witness of the former defect F1 (a crash of an idle actor) -/
+def idle : Actor Nat where
+  start _ := (0, [])
+  msg _ _ _ _ := .ok none []
+  timeout _ _ _ := .ok none []
+  random _ _ _ := .ok none []
+
+def exSys : ActorSys Nat Unit where
+  n := 2
+  actor _ := idle
+  lossy := false
+  maxCrashes := 1
+  initNet := Net.dup [] none
+  initHist := ()
+  recordIn _ _ := none
+  recordOut _ _ := none
+
+def st0 : St Nat Unit :=
+  { actors := [0, 0], net := Net.dup [] none, timers := [[], []], random := [[], []],
+    crashed := [false, false], hist := () }
+
+example : init exSys = some st0 := by decide
+example : actions exSys (specInit exSys) = [.crash 0, .crash 1] := by decide
+example : step exSys (specInit exSys) (.crash 1) = .next { st0 with crashed := [false, true] } := by decide
+example : actions exSys (crashOf 1 (specInit exSys)) = [] := by decide
+
 end SR.C09
